@@ -317,6 +317,24 @@ example : columnarSelectW (run demoSchema demoOps) Unspec.ones (.rng .lt (.col 1
 example : (vecFilterW (run demoSchema demoOps) Unspec.ones (.ne (.col 1) (.int 5))).isSome = true := by decide
 example : columnarSelectW (run demoSchema demoOps) Unspec.ones (.ne (.col 1) (.int 5)) = [1, 4] := by decide
 
+/-- **row id = slot + 1**: in every reachable state the row in slot `p` has id `p + 1`; hence the index paths,
+    which turn every looked-up id into the slot `id.saturating_sub(1)` and read it with `get_rows_by_indices`,
+    fetch exactly the rows the model finds by id, and the vectorised path numbers its selected slots `slot + 1` -/
+theorem row_ids_are_slot_plus_one (schema : List (ColType × Bool)) (ops : List Op) (c : Cond) :
+    let t := run schema ops
+    (∀ (p : Nat) (r : RowE), t.rows[p]? = some r → r.id = p + 1) ∧
+    (∀ ids, tryIndexLookup t c = some ids → fetch t ids = fetchBySlot t ids) ∧
+    (∀ idxs, rowsByIndices t.rows idxs =
+        (idxs.filter (fun i => match t.rows[i]? with | some r => r.alive | none => false)).map (· + 1)) := by
+  intro t
+  have hi : IdxInv t := run_inv schema ops
+  have hp : IdPos t := run_idPos schema ops
+  exact ⟨hp, fun ids h => fetch_eq_fetchBySlot t hi.1 hp ids (lookup_ids_pos t hi hp c ids h),
+    rowsByIndices_slot_plus_one t hp⟩
+
+example : fetchBySlot (run demoSchema demoOps) [2, 3, 4, 9] = fetch (run demoSchema demoOps) [2, 3, 4, 9] := by decide
+example : (fetchBySlot (run demoSchema demoOps) [2, 3, 4, 9]).map (·.id) = [2, 4] := by decide
+
 /-- the defect found on the real engine (`select_with_limit` truncated the raw index ids before the re-check):
     with that variant an index changes the answer -/
 theorem limit_truncate_first_witness :
